@@ -20,7 +20,7 @@ from harness.props import c01 as C01
 RULE = ('signed Interests/Data with every shipped signer (digest, HMAC, RSA-2048, ECDSA P-256/384/521, Ed25519, null) and '
         'random parameters; mutants of each wire: byte substitutions at every position (3 values per position quick / all 255 '
         'thorough on a subset), every truncation, TLV-level edits (delete / duplicate / swap / insert unknown critical and '
-        'non-critical element), the value of every top-level element cut short or extended with all Lengths fixed up.  Verifiers of a key: the verify function, the shipped checker object, and the compositions union_checker(digest checker, checker) / (checker, digest checker) / (checker) -- a verifier that raises has not accepted.  ECDSA signature values re-encoded over an untouched signed portion (fixed-width r||s, padded DER integers, long-form length; the symmetry (r, n-s) of the scheme itself is a listed finding).  HMAC signer/verifier pairs with keys of 1..300 octets (every length around the 64-octet block and the 32-octet digest size), the value compared with an independent HMAC-SHA256 over the specified signed portion. non-trivial = a mutant that still parses or the original; distinct by wire hash')
+        'non-critical element), the value of every top-level element cut short or extended with all Lengths fixed up.  Verifiers of a key: the verify function, the shipped checker object, and the compositions union_checker(digest checker, checker) / (checker, digest checker) / (checker) -- a verifier that raises has not accepted.  Interest names with an ImplicitSha256Digest component (made with one, or one inserted into the signed packet); the parameters digest component cut to a proper prefix of the right digest; ECDSA signature values re-encoded over an untouched signed portion (fixed-width r||s, padded DER integers, long-form length; the symmetry (r, n-s) of the scheme itself is a listed finding).  HMAC signer/verifier pairs with keys of 1..300 octets (every length around the 64-octet block and the 32-octet digest size), the value compared with an independent HMAC-SHA256 over the specified signed portion. non-trivial = a mutant that still parses or the original; distinct by wire hash')
 ASSUMPTIONS = ['unforgeability of the signature schemes / collision resistance of SHA-256 are hypotheses (C02_tamper_rejected); '
                'the run checks them empirically against pycryptodome for the generated mutants']
 
@@ -233,6 +233,17 @@ def check_packet(ctx, M, kind, wire, rec, verify, label, mutate=True):
                     muts.append((mk, G.tlv(t0, TG.ser(els[:si] + [(els[si][0], sv)] + els[si + 1:]))))
         except Exception as e:   # noqa
             ctx.stat('ecdsa-reencoding.skipped:' + type(e).__name__)
+    if kind == 'interest' and els and els[0][0] == 7:
+        comps = TG.tlv_walk(els[0][1]) or []
+        for ci, (ct, cv) in enumerate(comps):
+            if ct == 2 and len(cv) == 32:
+                for k in (1, 4, 16, 31):
+                    c2 = comps[:ci] + [(2, cv[:k])] + comps[ci + 1:]
+                    muts.append(('digest-prefix', G.tlv(t0, TG.ser([(7, TG.ser(c2))] + els[1:]))))
+                # an ImplicitSha256Digest component inserted into the name of the signed packet
+                for pos in {0, ci, len(comps)}:
+                    c3 = comps[:pos] + [(1, bytes(range(32)))] + comps[pos:]
+                    muts.append(('insert-implicit-digest', G.tlv(t0, TG.ser([(7, TG.ser(c3))] + els[1:]))))
     for mk, w2 in muts:
         st2 = parsed_state(w2)
         if st2 is None:
@@ -289,7 +300,16 @@ def run(ctx):
     rng = ctx.rng
     M = ctx.call
     keys = P.Keys.get()
-    signers = keys.signers() + [('digest-interest', keys.signers(True)[0][1], None)]
+    allsg = keys.signers()
+    signers = [x for x in allsg if not x[0].startswith('rsa-')] + [('digest-interest', keys.signers(True)[0][1], None)]
+    # RSA keys whose modulus is not a multiple of 8 bits: the genuine packet, without the mutant sweep
+    for label, sg, verify in [x for x in allsg if x[0].startswith('rsa-')]:
+        r = C01.one_data(ctx, M, [G.tlv(8, b'r')], {}, b'odd modulus', sg, label)
+        if r:
+            check_packet(ctx, M, 'data', r[0], r[1], verify, label, mutate=False)
+        r = C01.one_interest(ctx, M, [G.tlv(8, b'r')], P.rand_interest_args(rng)[1], b'pp', sg, label)
+        if r:
+            check_packet(ctx, M, 'interest', r[0], r[1], verify, label, mutate=False)
     for rnd in range(ctx.n(2, 12)):
         for label, sg, verify in signers:
             name, ip, app = P.rand_interest_args(rng)
@@ -298,6 +318,10 @@ def run(ctx):
                 # components after it are still part of the signed portion
                 k = rng.randint(0, len(name))
                 name = name[:k] + [G.tlv(2, bytes(32))] + name[k:] + [G.tlv(8, b'after')] * rng.choice([0, 1, 2])
+            if rng.random() < 0.3:
+                # an ImplicitSha256Digest component somewhere in the name: part of the signed portion like any other component
+                k = rng.randint(0, len(name))
+                name = name[:k] + [G.tlv(1, G.rand_bytes(rng, 32))] + name[k:]
             r = C01.one_interest(ctx, M, name, ip, app if rnd % 2 else rng.choice([None, b'', b'pp']), sg, label)
             if r:
                 check_packet(ctx, M, 'interest', r[0], r[1], verify, label)
